@@ -13,6 +13,7 @@
 From Coq Require Import List ZArith NArith Bool.
 Import ListNotations.
 From PyccoloV Require Import gen.PyAst gen.Events model.Tree model.Erase model.RwFrag proofs.EraseSound proofs.RwFragProofs.
+From PyccoloV Require Import model.FragSem proofs.FragSemProofs.
 
 Theorem C01_erase_sound :
   forall (D : Type) (dnone : D) (sem : N -> list scalar -> list (list D) -> D) (eqvl : list D -> list D -> Prop),
@@ -85,3 +86,27 @@ Definition ex_frag : tree :=
 Example C01_rw_frag_nonvacuous :
   in_frag ex_frag = true /\ Nat.ltb (4 * size ex_frag) (size (rw_module {| sub := fun _ => true |} ex_frag)) = true.
 Proof. vm_compute. split; reflexivity. Qed.
+
+(* SEMANTICS on the fragment (model/FragSem.v): typed terms for source programs and for what the rewriter makes of them
+   (`instr_module`, compared with the real rewriter's output tree on every K-sem program), evaluation under observing handlers.
+   For ALL primitive operations (binary / comparison / unary operators, truth, constants), every subscription, every source
+   module of the fragment, every initial environment: the instrumented program ends with the exception (or none) and the
+   bindings of the program as it is.  No law is assumed: this is a theorem about the evaluator, which K-sem ties to CPython
+   and the real runtime (exception type, final bindings, event stream of real runs = the evaluator's). *)
+Theorem C01_frag_semantics : forall binop cmpop unop truth cval is_and (c : rcfg) (body : list tstmt) (r : env) (sv sv' : val),
+  forallb src_s body = true ->
+  s_exc (exec_l binop cmpop unop truth cval is_and (instr_module c body) r sv) = s_exc (exec_l binop cmpop unop truth cval is_and body r sv') /\
+  s_env (exec_l binop cmpop unop truth cval is_and (instr_module c body) r sv) = s_env (exec_l binop cmpop unop truth cval is_and body r sv').
+Proof. exact frag_semantics. Qed.
+Print Assumptions C01_frag_semantics.
+
+(* non-vacuity: `a = 2; b = a + 3 < 9; if b: a // 0` is a source module; with every event subscribed it still ends in ZeroDivisionError with a = 2, b = True *)
+Definition ex_sem : list tstmt :=
+  [SAssign 1 [100] (XConst 4 (SInt 2%Z));
+   SAssign 5 [101] (XCmp 8 (XBin 9 (XName 10 100) kAdd (XConst 13 (SInt 3%Z))) [kLt] [XConst 15 (SInt 9%Z)]);
+   SIf 16 (XName 17 101) [SExpr 19 (XBin 20 (XName 21 100) kFloorDiv (XConst 24 (SInt 0%Z)))] []]%N.
+Example C01_frag_semantics_nonvacuous :
+  forallb src_s ex_sem = true /\
+  let a := exec_l Py.binop Py.cmpop Py.unop Py.truth Py.cval Py.is_and (instr_module {| sub := fun _ => true |} ex_sem) (fun _ => None) VNone in
+  s_exc a = Some EZeroDiv /\ s_env a 100%N = Some (VInt 2) /\ s_env a 101%N = Some (VBool true) /\ length (s_log a) = 32%nat.
+Proof. vm_compute. repeat split; reflexivity. Qed.
